@@ -4,7 +4,7 @@ manifest stays valid and in step with the checks that exist)."""
 import json, os
 VERIF = os.path.dirname(os.path.dirname(os.path.abspath(__file__)))
 
-TS_NOTE = ('Trusted base: z3 5.1 (QF_BV); the extraction (symrun) and its stub primitives with the blocking semantics listed in the evidence; the Lipton-reduction / partial-order-reduction arguments; replay harness. Bounded: listed graphs (<= 3 tasks), <= 2-3 workers, depth K (quick: first K steps of every run; thorough: K established by the unwinding query).')
+TS_NOTE = ('Trusted base: z3 5.1 (QF_BV); the extraction (symrun) and its stub primitives with the blocking semantics listed in the evidence; the Lipton-reduction / partial-order-reduction arguments; replay harness. Bounded: listed graphs (<= 3 tasks), <= 2 workers (3-task graphs: one worker), depth K = 22+11N+6W (first K steps of every run; the thorough tier establishes by an unwinding query that every run is complete within K for one worker and graphs with <= 2 tasks or without soft edges).')
 
 SYM_NOTE = ('Trusted base: z3 5.1; the symrun proxies (extended-real algebra: exact reals + IEEE special values, '
             'no rounding); numpy for shape bookkeeping; stubs and assumptions listed in the evidence file. '
@@ -13,7 +13,8 @@ SYM_NOTE = ('Trusted base: z3 5.1; the symrun proxies (extended-real algebra: ex
 CHECKS = {
  'C08': dict(technique='bounded symbolic execution of the real Dataset arithmetic (symrun + z3 QF_NRA), per-path SMT queries',
              text='Every clause (value = array operation, first-order error formula, error >= 0, shape, bins kept, operands '
-                  'unchanged, copy independent) is decided by z3 for ALL finite values/errors of the listed shapes on every '
+                  'unchanged, copy independent) is decided by z3 for ALL finite values/errors of the listed shapes (NumPy scalar factors and a right '
+                  'operand with bins next to a left one without included; mask chains with a model of every intermediate result) on every '
                   'feasible path of the real code; counterexamples are replayed in float64. Bounded by shape and chain length.',
              design='DESIGN.md section 4 C08'),
  'C09': dict(technique='bounded symbolic execution of the real slicing code (symrun + z3): LIA over unbounded symbolic start/stop for the bins index arithmetic; forked concretisation for numpy indexing end to end',
@@ -25,12 +26,13 @@ CHECKS = {
  'C05': dict(technique='bounded symbolic execution of the real Student test (symrun + z3 QF_NRA); scipy laws as uninterpreted functions with monotonicity/symmetry/quantile axioms; differential against the statement formula',
              text='For every extended-real cell (finite, NaN, +-inf), alpha in (0,1) and any ndf, on every path of the real code z3 decides '
                   'verdict <=> all bins compatible, oracles()/p-value decision/test_pvalue() == per-bin formula, plus relational twins '
-                  '(symmetry, rescaling, monotonicity) as two executions inside one query. Bounded by shape/number of datasets.',
+                  '(symmetry, rescaling, monotonicity) as two executions inside one query. Bounded by shape/number of datasets. One extra job runs '
+                  'concrete extreme significance levels (down to 1e-300) against an accurate reference: floating point is outside the real-number model.',
              design='DESIGN.md section 4 C05'),
  'C06': dict(technique='bounded symbolic execution of the real Bonferroni/Holm-Bonferroni code (symrun + z3 LRA; QF_NRA with law stubs for Student-based jobs); argsort as a solver-chosen sorting permutation',
              text='For every p-value array (reals in [0,1] or NaN, ties included) of the listed shapes and every alpha, on every path and for every '
                   'tie-breaking argsort may choose, z3 decides flags, levels, counts, verdicts, the Bonferroni=>Holm implication, '
-                  'permutation/reshape invariance and Student-pass => both pass. Bounded by m <= 3 (quick) / 4 (thorough) bins.',
+                  'permutation/reshape invariance (C- and Fortran-ordered arrays) and Student-pass => both pass. Bounded by m <= 4 bins.',
              design='DESIGN.md section 4 C06'),
  'C07': dict(technique='bounded symbolic execution of the real chi-square test (symrun + z3 QF_NRA, uninterpreted chi-square law); zero-error mask concretised by solver-driven forking',
              text='For every extended-real cell, every zero-error pattern, alpha in (0,1), both option settings, on every path z3 decides: '
@@ -40,22 +42,26 @@ CHECKS = {
  'C17': dict(technique='bounded symbolic execution of the real Browser/Index code (symrun + z3) with symbolic-equality keys: dict/set partition metadata values by solver-decided equality; differential against the naive scan',
              text='For item lists of <= 3 (4) items over <= 2 metadata keys with ARBITRARY hashable values (only equality observable), all '
                   'presence patterns, queries, include/exclude sets and 1-2 step chains, on every path (one per feasible equality pattern) the '
-                  'result items/order/data identity/globals/data_key, select_by exceptions, merge and immutability of browsers and inputs are decided.',
+                  'result items/order/data identity/globals/data_key, select_by exceptions, merge and immutability of browsers and inputs are decided; '
+                  'plus lists of 10 (13) items with concrete values and every subset matching (order of the selection), the data key named in '
+                  'include / exclude, item-less merge operands carrying globals.',
              design='DESIGN.md section 4 C17'),
  'C16': dict(technique='bounded-exhaustive symbolic execution of the real DepGraph/RList code (symrun, z3 decides fork feasibility): inductive step = one or two operations with solver-chosen arguments from every valid state of the bound, compared with a set model',
              text='From EVERY representation state over <= 3 (4) nodes (symbolic edge matrix) every public operation with every argument choice is '
                   'executed; representation invariant, nodes/dependencies/dependees/iteration/==/<=, independence of copies and inverses, '
-                  'topological sort, transitive reduction/closure and flatten (nested graphs incl. empty ones) are compared with the mathematical model. '
+                  'topological sort, transitive reduction/closure and flatten (nested graphs incl. empty and two-level ones, nested objects left unmodified), '
+                  'edge edits after a merge, are compared with the mathematical model. '
                   'Containers hash by identity so each path is one concrete state: exhaustive within the bound, not beyond.',
              design='DESIGN.md section 4 C16'),
  'C18': dict(technique='bounded symbolic execution of the real diagnostic statistics code (symrun + z3): symbolic verdicts, symbolic-equality label values partitioned by the real index, solver-chosen statuses/selections; differential against direct counting',
              text='For <= 3 (4) tasks/results with every status, result pattern, symbolic verdict, label presence pattern and ARBITRARY label values '
                   '(equality/order only), every ordered label selection: each task/result counted once under its status/verdict, MISSING tasks, '
-                  'OK+KO=total=results carrying the labels, nb_missing_labels, oracles and verdicts are decided on every path.',
+                  'OK+KO=total=results carrying the labels, nb_missing_labels, oracles and verdicts are decided on every path; plus three-level selections, '
+                  'labels named like reserved keys, and concrete label values of different types (None, text, number).',
              design='DESIGN.md section 4 C18'),
  'C01': dict(engine='threadsym', category='model_checking', note=TS_NOTE,
              technique='per-thread automata extracted from the real scheduler code by symbolic execution between synchronisation points; z3 bounded model checking (QF_BV) with the interleaving, task outcomes and clock instants as solver variables; counterexamples replayed on real threads',
-             text='For each listed graph/worker count, ONE z3 query over ALL interleavings (schedule = solver variables), all 7 task outcome kinds and all '
+             text='For each listed graph/worker count, ONE z3 query over ALL interleavings (schedule = solver variables), all 11 task outcome kinds and all '
                   'clock readings decides that no task starts before every dependency is final and its update is readable. The automata are regenerated '
                   'from /repo on every run; a counterexample is a concrete schedule that is replayed on the real code with real threads.',
              design='DESIGN.md sections 2.2, 4 C01'),
@@ -65,7 +71,7 @@ CHECKS = {
                   'termination the status map equals F(graph, outcomes) (hence is schedule independent), skipped tasks never executed.',
              design='DESIGN.md sections 2.2, 4 C02'),
  'C03': dict(engine='threadsym', category='model_checking', note=TS_NOTE,
-             technique='extracted thread automata + z3 bounded model checking over all interleavings (QF_BV) from a solver-chosen initial environment; deadlock / lost wake-up / leaked worker as a quiescence predicate; unwinding query bounds every run (thorough); replay on real threads',
+             technique='extracted thread automata + z3 bounded model checking over all interleavings (QF_BV) from a solver-chosen initial environment; deadlock / lost wake-up / leaked worker as a quiescence predicate; work queue handed back pristine (induction over calls on one scheduler object); unwinding query bounds every run where it is within reach (thorough); replay on real threads',
              text='For each listed graph (cyclic ones included), worker count, outcome kinds and arbitrary initial DONE/FAILED/SKIPPED entries: no '
                   'reachable state in which nothing can move while a started thread has not finished (covers lost wake-ups, dead workers, workers '
                   'left blocked after the master returned or raised); thorough tier additionally proves every run ends within K steps.',
@@ -79,45 +85,53 @@ CHECKS = {
  'C14': dict(technique='bounded symbolic execution of the real persistence code (symrun + z3) against fault-injecting stubs of open() and pickle: statuses, crash point of the write phase, errno values and the exception raised by a damaged file are solver-chosen',
              text='For <= 2 (3) tasks with every status / output_dir pattern, older files on disk, every write fault (open fails, crash leaving an empty '
                   'or truncated file) and read fault (errno symbolic, garbage) and EVERY exception of the unpickling contract: read_env never raises and '
-                  'returns exactly the intact DONE entries as written.',
+                  'returns exactly the intact DONE entries as written; plus a job with the REAL pickle on a real directory (payload plain / array / containing '
+                  'an Env, written once or twice).',
              design='DESIGN.md section 4 C14'),
  'C19': dict(technique='bounded symbolic execution of the real command runner (symrun + z3 LIA) with symbolic exit statuses and start-up failures; z3 string theory on the real sanitize_filename for task names of any length',
              text='For <= 3 (4) command lines with ARBITRARY integer exit statuses (negative included) and a start-up failure at any position: DONE iff '
                   'all zero, stop at first non-zero, recorded codes = codes of commands run, captured streams intact and in order, output directory '
-                  'of the task; for EVERY task name (unbounded string): accepted names are exactly one non-empty path component.',
+                  'of the task, also on a second execution under the same output root; CheckoutTask and BuildTask stop at their first failing step; '
+                  'for EVERY task name (unbounded string): accepted names are exactly one non-empty path component.',
              design='DESIGN.md section 4 C19'),
  'C20': dict(technique='bounded symbolic execution of the real report writer (symrun + z3: solver-chosen tree shapes and titles from a pool with reserved/invalid/dotted/repeated names) on a temporary directory, pages read back',
              text='For every report tree of <= 3 (4) sections of any shape with titles from the pool: one page per section at the path of its titles, '
-                  'root page intact, every result exactly once on its page, every toctree entry resolves, and a tree containing an unusable or '
-                  'reserved title is rejected before anything is written.',
+                  'root page intact, every result exactly once on its page, every toctree entry resolves, every referenced figure exists (figure rendering '
+                  'stubbed; sequential or pooled writing; a second output directory; another report formatted in between), and a tree containing an '
+                  'unusable or reserved title is rejected before anything is written.',
              design='DESIGN.md section 4 C20'),
  'C15': dict(technique='bounded symbolic execution (symrun + z3: solver-chosen request histories) of the real Use / RunTaskFactory / close_dependency_graph code against its process-wide caches; returned tasks executed with tagged callables',
              text='For every history of 2 (3) wrapper requests / 3 (4) factory requests over the listed alphabets and every hard/soft graph on <= 3 (4) '
                   'tasks: identical requests share a task, different requests never do (two known cache-key findings excluded by signature), each task '
-                  'runs its own function / command line with its own dependencies, closure returns every transitive dependency once.',
+                  'runs its own function / command line with its own dependencies, closure / collect_tasks return every transitive dependency once; plus '
+                  'wrappers of wrappers and sibling factories (different default keywords, or two executables of one build task) with a wrapper on each run task.',
              design='DESIGN.md section 4 C15'),
  'C12': dict(technique='bounded symbolic execution (symrun + z3: solver-chosen result kinds, failing-bin patterns as symbolic booleans, verbosities, slices) of the real table representers, TableTemplate and RstTable formatter',
              text='For every result kind with a built-in representation, every failing-bin pattern of the listed shapes, all 6 verbosities and both table '
                   'representers: a highlight/KO mark appears iff the result is false; detailed tables highlight exactly the failing bins and show their '
-                  'values (template level and text level); highlight masks and columns have equal lengths; slicing/joining keeps them aligned.',
+                  'values (template level and text level); highlight masks and columns have equal lengths; slicing/joining (synthetic tables and the tables '
+                  'of two results of one kind) keeps them aligned; EVERY produced table is parsed back with docutils on every path: valid reStructuredText, '
+                  'cells and highlights equal to the template.',
              design='DESIGN.md section 4 C12'),
  'C13': dict(technique='bounded symbolic execution (symrun + z3: solver-chosen result kinds, failing patterns, verbosities and SEQUENCES of read-only operations) with deep structural snapshots',
              text='For every result kind, failing pattern and every sequence of 2 (3) operations out of bool, oracles, counts, table/plot/full '
                   'representation at any verbosity, rst formatting, fingerprint, deepcopy, pickle: verdict, recorded statistics (dictionary key sets '
-                  'included) and input datasets are identical before and after; evaluating twice gives identical results.',
+                  'included) and input datasets are identical before and after; evaluating twice gives identical results and leaves the observed results '
+                  'unchanged; cells may be NaN, arrays big-endian, names non-alphabetical, and user-made (external) results with units are included.',
              design='DESIGN.md section 4 C13'),
  'C10': dict(technique='bounded-exhaustive symbolic execution (symrun + z3 as enumerator of solver-chosen file layouts) of the real Tripoli-4 reader on synthetic listings and of the real Apollo3 Reader/Picker on synthetic HDF5 files, both built around ground truth; numbers are concrete tags',
              text='PARTIAL. Tripoli-4: for every synthetic listing of the bound (1-2(3) spectrum responses, 1-3(4) energy groups, optional time steps / mu '
-                  'zones, every printing order per dimension, zero/negative special value at every cell) the datasets returned by '
+                  'zones, every printing order per dimension, zero/negative special value at every cell, the energy-integrated results of every step, a '
+                  'sigma printed as zero; scores on a small mesh; sensitivity profiles; a KEFFS response with partially converged lines) the datasets returned by '
                   'Parser(...).to_browser() carry each printed score in the cell of its printed boundaries, error = value*sigma%/100 and increasing bins. '
                   'Apollo3: for every standard-layout HDF5 file of the bound (1-2 outputs, 1-2 groups, 1-2 zones, every per-output isotope list over 3 '
                   'isotopes) Reader(...).to_browser() and every single Picker pick return the stored arrays under the right labels. The pyparsing / float() / '
                   'h5py front ends run concretely (they cannot be executed symbolically): the solver only chooses the layout.',
              note='Trusted base: the listing / HDF5 generators (layouts copied from a shipped listing and from the documented Apollo3 data model). '
-                  'Not covered: mesh/keff/IFP/sensitivity layouts, other Apollo3 data models. Enumeration within the bound, stated as such.',
+                  'Not covered: Green bands / IFP / perturbation layouts, other Apollo3 data models. Enumeration within the bound, stated as such.',
              design='DESIGN.md section 4 C10, section 5 and 9.5'),
  'C11': dict(technique='bounded-exhaustive symbolic execution (symrun + z3 enumerating a symbolic cut offset) of the real Scanner/Parser on shipped listings truncated at every byte of the stated ranges',
-             text='For EVERY byte offset of the parallel-mode example listing and every byte of every scanner-interpreted line of two sequential listings: '
+             text='For EVERY byte offset of the parallel-mode example listing and every byte of every scanner-interpreted line (and of the line after it) of three sequential listings: '
                   'Scanner raises only ScannerException, Parser() only ParserException, never hangs (60 s alarm); at sampled offsets the last complete '
                   'edition parses to the same results as in the complete listing. Grammar behaviour on blocks the scanner never delivers is outside.',
              design='DESIGN.md section 4 C11'),
